@@ -60,7 +60,12 @@ def trim(sp):
 
 
 def new(sp):
-    return {'ret': ('val', VStr(VALUE_STRING(sp.h.term(), sp.a[0])))}
+    # CPython refuses to print integers of more than 4300 digits (ValueError -> null): outside the argument range
+    from pyvc.core import is_int
+    lim = z3.IntVal(10 ** 4300)
+    v = sp.a[0]
+    return {'ok': z3.Not(z3.And(is_int(v), z3.Or(V.i(v) >= lim, V.i(v) <= -lim))),
+            'ret': ('val', VStr(VALUE_STRING(sp.h.term(), v)))}
 
 
 def repeat(sp):
